@@ -317,3 +317,32 @@ Definition zip_latest_lossless_buffer_popleft (p : latest_st) : option ((val * m
   | e :: t => Some (e, ls_set_buf (fun _ => t) p)
   | [] => None
   end.
+
+(* ---- partition_unique: _buffer : dict key -> value, _metadata_buffer : dict key -> metadata (python dicts keep
+        insertion order; assigning an existing key keeps its place).  The model keeps one list of
+        (key, ([value], metadata)) in st_keyed. *)
+Record pu_st := { pu_buf : list (val * val); pu_mbuf : list (val * md) }.
+Definition pu_fb (e : val * (list val * md)) : val * val := (fst e, hd VNone (fst (snd e))).
+Definition pu_fm (e : val * (list val * md)) : val * md := (fst e, snd (snd e)).
+Definition partition_unique_load (s : nstate) : pu_st :=
+  {| pu_buf := map pu_fb (st_keyed s); pu_mbuf := map pu_fm (st_keyed s) |}.
+Definition pu_join (bm : (val * val) * (val * md)) : val * (list val * md) :=
+  (fst (fst bm), ([snd (fst bm)], snd (snd bm))).
+Definition partition_unique_store (s : nstate) (p : pu_st) : nstate :=
+  set_keyed s (map pu_join (combine (pu_buf p) (pu_mbuf p))).
+Definition partition_unique__buffer (p : pu_st) : list (val * val) := pu_buf p.
+Definition partition_unique__buffer_set (d : list (val * val)) (p : pu_st) : pu_st := {| pu_buf := d; pu_mbuf := pu_mbuf p |}.
+Definition partition_unique__metadata_buffer (p : pu_st) : list (val * md) := pu_mbuf p.
+Definition partition_unique__metadata_buffer_set (d : list (val * md)) (p : pu_st) : pu_st := {| pu_buf := pu_buf p; pu_mbuf := d |}.
+(* d.pop(k, None) *)
+Definition partition_unique__buffer_pop (k : val) (p : pu_st) : option (option val * pu_st) :=
+  Some (assoc_get k (pu_buf p), {| pu_buf := assoc_remove k (pu_buf p); pu_mbuf := pu_mbuf p |}).
+Definition partition_unique__metadata_buffer_pop (k : val) (p : pu_st) : option (option md * pu_st) :=
+  Some (assoc_get k (pu_mbuf p), {| pu_buf := pu_buf p; pu_mbuf := assoc_remove k (pu_mbuf p) |}).
+Definition partition_unique__buffer_setitem (k v : val) (p : pu_st) : pu_st :=
+  {| pu_buf := assoc_set k v (pu_buf p); pu_mbuf := pu_mbuf p |}.
+Definition partition_unique__metadata_buffer_setitem (k : val) (m : md) (p : pu_st) : pu_st :=
+  {| pu_buf := pu_buf p; pu_mbuf := assoc_set k m (pu_mbuf p) |}.
+Definition partition_unique__buffer_contains (k : val) (p : pu_st) : bool := negb (is_none (assoc_get k (pu_buf p))).
+Definition partition_unique__buffer_values (p : pu_st) : list val := map snd (pu_buf p).
+Definition partition_unique__metadata_buffer_values (p : pu_st) : list md := map snd (pu_mbuf p).
